@@ -6,7 +6,7 @@ from .common import Exc
 from .oracle_env import env_for
 from .lru_common import call
 
-THEOREMS = ["C13_stem_prefix_is_string_prefix", "C13_clean_app", "C13_clean_idem", "C13_descendant_extends_stems",
+THEOREMS = ["C13_stem_prefix_is_string_prefix", "C13_clean_app", "C13_clean_idem", "C13_descendant_extends_stems", "C13_prefix_means_under", "C13_stems_by_blocks",
             "(ancestor <=> LRU prefix: decided on all ordered pairs of the universe, both directions — partial)"]
 REGEXES = ["PORT_SPLITTER", "PROTOCOL_RE", "SPECIAL_HOSTS_RE"]
 
@@ -57,7 +57,8 @@ def run(res, tier, rng):
 
     hosts = [("com",), ("x", "com"), ("a", "x", "com"), ("b", "a", "x", "com"), ("co", "uk"), ("x", "co", "uk"), ("a", "x", "co", "uk"),
              ("y", "com"), ("X", "com"), ("blogspot", "com"), ("s", "blogspot", "com"), ("163", "com"), ("news", "163", "com"), ("1x", "co", "uk"),
-             ("localhost",), ("api", "localhost"), ("b", "api", "localhost")]
+             ("localhost",), ("api", "localhost"), ("b", "api", "localhost"),
+             ("city", "kawasaki", "jp"), ("www", "city", "kawasaki", "jp"), ("a", "www", "city", "kawasaki", "jp")]
     seg_chains = [[], ["a"], ["a", "b"], ["a", "b", "c"], ["b"], ["a", "c"], ["a%2Fb"], ["a%2Fb", "c"], ["a%2fb"]]
     universe = []
     for scheme, port in (("http", ""), ("https", ""), ("http", "8080"), ("http", "80")):
